@@ -92,6 +92,18 @@ def layout_variants(rng: random.Random, scratch: Path, count: int) -> List[Dict[
         path = scratch / f'layout{k}.fj'
         path.write_text(text)
         out.append({'files': [str(path)], 'w': w, 'stl': True, 'name': f'layout-variant-{k}'})
+    # a source that only WARNS (its outcome depends on the warning mode, in every process alike), one whose macro body holds a
+    # 300-term expression (needs the default recursion limit), and flat programs of more than 2^16 data words
+    warn = scratch / 'warns.fj'
+    warn.write_text('def wm a, b {\n  ;a\n}\n;\nwm 1, 2\n')
+    out.append({'files': [str(warn)], 'w': rng.choice([16, 32, 64]), 'stl': False, 'name': 'warning-bearing'})
+    deep = scratch / 'deep.fj'
+    deep.write_text('def dm x {\n  ;x' + '+1' * 300 + '\n}\n;\ndm 5\n')
+    out.append({'files': [str(deep)], 'w': 64, 'stl': False, 'name': 'deep-expression'})
+    for k, n_ops in enumerate([rng.randrange(33000, 45000), rng.randrange(60000, 90000)]):
+        big = scratch / f'big{k}.fj'
+        big.write_text(f'def bt i {{\n  ;i*{2 * 64}\n}}\n;\nrep({n_ops}, i) bt i\n')
+        out.append({'files': [str(big)], 'w': 64, 'stl': False, 'name': f'big-flat-{k}'})
     return out
 
 
@@ -212,10 +224,46 @@ def run_shard(spec: Dict[str, Any], journal: Any) -> Dict[str, Any]:
             same_w = [s for s in sources if s['w'] == probe['w'] and s['stl'] == probe['stl']]
             history.append(late_failure(rng, rng.choice(same_w), scratch, index * 20 + 19))
             judge.count('probe_right_after_a_last_stage_failure')
+        r = rng.random()
+        by_name = {src['name']: src for src in sources}
+        if r < 0.1 and 'deep-expression' in by_name:
+            # a call that asked for a small recursion depth, then a probe that needs the default one
+            probe = dict(by_name['deep-expression'], werror=True, version=rng.choice([1, 3]))
+            probe_src = by_name['deep-expression']
+            history.append(dict(rng.choice([src for src in sources if not src['stl']]), werror=False, version=1,
+                                max_recursion_depth=rng.choice([5, 40, 50, 120]), name='small-recursion-depth-call'))
+            judge.count('targeted/deep-probe-after-a-small-depth-call')
+        elif r < 0.2 and 'big-flat-0' in by_name:
+            # a big image written by the same process before a smaller (still > 2^16 words) one
+            probe = dict(by_name['big-flat-0'], werror=True, version=rng.choice([1, 3, 0, 2]))
+            probe_src = by_name['big-flat-0']
+            history.append(dict(by_name['big-flat-1'], werror=True, version=probe['version']))
+            judge.count('targeted/big-image-after-a-bigger-one')
+        elif r < 0.3 and 'warning-bearing' in by_name:
+            # the same warning-bearing source, first with warnings tolerated (or already refused once), then as errors
+            probe = dict(by_name['warning-bearing'], werror=True, version=rng.choice([1, 3]))
+            probe_src = by_name['warning-bearing']
+            history.append(dict(probe, werror=rng.random() < 0.5))
+            judge.count('targeted/warning-source-again-as-errors')
         journal.note({'probe': probe, 'history': history})
         fresh = judge.fresh(probe)
-        if fresh is None or not fresh['ok']:
-            judge.count('probe_does_not_assemble_fresh')
+        if fresh is None:
+            judge.count('fresh_probe_child_failed')
+            continue
+        if not fresh['ok']:
+            # a probe that a fresh process REJECTS must be rejected, with the same exception class, after any history as well
+            judge.count('probes_rejected_fresh')
+            res = judge.child({'history': history, 'probe': probe}, hashseed=rng.choice(['0', '1', '12345']))
+            judge.count('monitor_evaluations')
+            judge.count('histories')
+            if res is not None:
+                got = res['probe']
+                if got['ok'] or got.get('error') != fresh.get('error'):
+                    if sum(1 for v in judge.violations if v['key'] == 'outcome-depends-on-history') < 3:
+                        judge.violations.append({'key': 'outcome-depends-on-history',
+                                                 'what': f'probe {probe_src["name"]} (werror={probe["werror"]}): a fresh process gives {fresh.get("error")}, after history '
+                                                         f'{[h.get("name") for h in history]} it gives {"a file" if got["ok"] else got.get("error")}',
+                                                 'replay': {'probe': probe, 'history': history}})
             continue
         res = judge.child({'history': history, 'probe': probe}, hashseed=rng.choice(['0', '1', '12345']))
         judge.count('monitor_evaluations')
